@@ -109,6 +109,40 @@ fn boxed_case<T: MaybeDynSized<Metadata = usize> + ?Sized>(ctx: &mut Ctx, key: &
     }
 }
 
+/// new_boxed with slices that alias each other inside one buffer.
+fn aliasing_case(ctx: &mut Ctx, hk: usize, buf: &[u8], parts: &[(usize, usize)], content: &[u8]) {
+    let slices: Vec<&[u8]> = parts.iter().map(|&(a, b)| &buf[a..b]).collect();
+    let (hdr, off) = if hk == 4 { (16usize, 8usize) } else if hk == 3 { (8, 0) } else { (8, 4) };
+    let total = hdr + content.len();
+    let r = ctx.call("new_boxed(aliasing)", || unsafe {
+        macro_rules! go {
+            ($t:ty, $h:expr) => {{
+                let b = new_boxed::<$t>($h, &slices);
+                let t: &$t = &b;
+                (std::slice::from_raw_parts(t as *const $t as *const u8, total).to_vec(), std::mem::size_of_val(t))
+            }};
+        }
+        match hk {
+            0 => go!(DynSizedStructure<TagHeader>, TagHeader::new(TagType::Custom(0x1337), 0)),
+            1 => go!(DummyDstTag, DummyTestHeader::new(42, 0)),
+            2 => go!(DynSizedStructure<HeaderTagHeader>, HeaderTagHeader::new(HeaderTagType::Address, HeaderTagFlag::Optional, 0)),
+            3 => go!(DynSizedStructure<BootInformationHeader>, std::mem::transmute::<[u32; 2], BootInformationHeader>([0, 0])),
+            _ => go!(DynSizedStructure<Multiboot2BasicHeader>, std::mem::transmute::<[u32; 4], Multiboot2BasicHeader>([0xE852_50D6, 4, 0, 0])),
+        }
+    });
+    match r {
+        Out::Panic => ctx.violation("c16/aliasing/panic", || format!("new_boxed panicked for aliasing slices {:?}", parts)),
+        Out::Val((bytes, sov)) => {
+            ctx.tx.bytes(&bytes);
+            if rd32(&bytes, off) as usize != total || sov != round8(total) || bytes[hdr..] != *content {
+                ctx.violation("c16/aliasing/content", || format!("slices {:?} of one buffer: size field {}, size_of_val {}, content {:02x?}; expected size {}, content {:02x?}", parts, rd32(&bytes, off), sov, &bytes[hdr..], total, content));
+            } else {
+                ctx.class("boxed:exact");
+            }
+        }
+    }
+}
+
 fn clone_case<T: MaybeDynSized<Metadata = usize> + ?Sized>(ctx: &mut Ctx, key: &'static str, size_of: &dyn Fn(&T) -> usize, make: impl Fn() -> Box<T>) {
     let r = ctx.call("clone_dyn", || {
         let orig = make();
@@ -163,6 +197,35 @@ fn run(ctx: &mut Ctx) {
                         }
                     });
                 }
+            }
+        }
+    }
+    ctx.bound("new_boxed_aliasing", "content slices that alias one another: every sequence of up to 3 sub-slices [a..b) of one 5-byte buffer (21 sub-slices incl. empty ones: repeated, overlapping, reversed, nested), all five header kinds");
+    {
+        let buf: Vec<u8> = (0..5).map(|i| marker(i, 69)).collect();
+        let mut subs: Vec<(usize, usize)> = vec![];
+        for a in 0..=5usize {
+            for b in a..=5usize {
+                subs.push((a, b));
+            }
+        }
+        for k in 1..=3usize {
+            for code in 0..subs.len().pow(k as u32) {
+                let mut c = code;
+                let mut parts: Vec<(usize, usize)> = vec![];
+                for _ in 0..k {
+                    parts.push(subs[c % subs.len()]);
+                    c /= subs.len();
+                }
+                // the expected content is the concatenation, whatever the aliasing
+                let content: Vec<u8> = parts.iter().flat_map(|&(a, b)| buf[a..b].iter().copied()).collect();
+                let hk = code % 5;
+                let describe = || J::obj().set("part", "new_boxed_aliasing").set("header_kind", hk).set("sub_slices_of_one_buffer", format!("{:?}", parts));
+                ctx.leaf(describe, |ctx| {
+                    ctx.state_direct();
+                    ctx.nontrivial();
+                    aliasing_case(ctx, hk, &buf, &parts, &content);
+                });
             }
         }
     }
